@@ -236,8 +236,49 @@ func (mm *Mem) LoadRaw(p *smt.Term, n int, h *AccessHooks, what string) []*smt.T
 }
 
 // targets resolves p, forking off nil / invalid targets through the hooks.
+// enumerate lists the values a pointer term can take under the path condition
+// (at most max; ok=false when there are more or the solver cannot tell).
+func (mm *Mem) enumerate(p *smt.Term, max int) (vals []uint64, ok bool) {
+	var excl []*smt.Term
+	for len(vals) <= max {
+		q := append(append([]*smt.Term{}, mm.m.PC...), excl...)
+		// force p to appear in the query so that the model assigns it
+		probe := mm.m.Fresh("ptrprobe", 64)
+		q = append(q, smt.Eq(probe, p))
+		r, mod := mm.m.S.Check(q, true)
+		if r == smt.Unsat {
+			return vals, true
+		}
+		if r != smt.Sat || mod == nil {
+			return nil, false
+		}
+		v, have := mod.V[probe.Name]
+		if !have {
+			return nil, false
+		}
+		vals = append(vals, v)
+		excl = append(excl, smt.Ne(p, smt.Const(64, v)))
+	}
+	return nil, false
+}
+
 func (mm *Mem) targets(p *smt.Term, h *AccessHooks, what string) []Target {
 	all := mm.Resolve(p)
+	if len(all) == 1 && all[0].A == nil && !all[0].Addr.IsConst() {
+		// pointer assembled from memory bytes (e.g. written through a symbolic
+		// offset): enumerate its few possible values with the solver
+		if vals, ok := mm.enumerate(p, 8); ok && len(vals) > 0 {
+			all = nil
+			for _, v := range vals {
+				c := smt.Const(64, v)
+				tg := Target{Guard: smt.Eq(p, c), Addr: c}
+				if a := mm.Find(v); a != nil {
+					tg.A, tg.Off = a, smt.Const(64, v-a.Base)
+				}
+				all = append(all, tg)
+			}
+		}
+	}
 	var ok []Target
 	for _, tg := range all {
 		if tg.A != nil && !tg.A.Freed {
